@@ -155,6 +155,7 @@ def main():
     if a.replay:
         rp, o = native(json.load(open(a.replay))['case']); print(o); sys.exit(1 if rp else 0)
     rep = R.Report('C18', a.tier, seed); timeout = solve.TIMEOUT_MS[a.tier]
+    R.prefetch_native('props.c18_native', ['bounded', str(seed), a.tier])      # the stand-in runs while the obligations are discharged
     u = Under()
     for m, names in ((PB, ['preprocess', 'preprocess._', '_MetaPreprocess.__new__']), (FO, ['_center', 'square', 'serialize_bit', 'center', 'standardize', 'StandardizeOn.__call__', 'CenterOn.__call__', 'ToPower.__call__']),
                      (HB, ['_BaseCombination._set_frame', '_BaseCombination._set_frames', '_CombinationPointToPoint.__call__', '_CombinationPointToPoint._set_frames', '_CombinationOfTwoFrames.__call__', '_CombinationOfTwoFrames._set_frames',
